@@ -20,13 +20,21 @@ theorem SameTree.trans {a b c : St} (h1 : SameTree a b) (h2 : SameTree b c) : Sa
    h2.2.2.trans h1.2.2⟩
 
 theorem callH_tree (st : St) (g : HId) : SameTree st (callH st g).1 := by
+  unfold callH
   by_cases hc : (st.h g).cached = true
-  · simp only [callH, hc, if_true]; exact SameTree.refl st
-  · simp only [callH, hc]
-    refine ⟨fun j => by simp, fun g' => ?_, by simp⟩
-    by_cases e : g = g'
-    · subst e; simp
-    · simp [e]
+  · rw [if_pos hc]; exact SameTree.refl st
+  · rw [if_neg hc]
+    by_cases hf : st.failing g ((st.h g).tries + 1) = true
+    · rw [if_pos hf]
+      refine ⟨fun j => by simp, fun g' => ?_, by simp⟩
+      by_cases e : g = g'
+      · subst e; simp
+      · simp [e]
+    · rw [if_neg hf]
+      refine ⟨fun j => by simp, fun g' => ?_, by simp⟩
+      by_cases e : g = g'
+      · subst e; simp
+      · simp [e]
 
 theorem clearH_tree (st : St) (g : HId) : SameTree st (clearH st g) := by
   refine ⟨fun j => by simp [clearH], fun g' => ?_, by simp [clearH]⟩
@@ -101,6 +109,7 @@ theorem step_tree (st : St) (op : Op) (h : op.mutates = false) : SameTree st (st
   | set m key v => cases h
   | layer m => cases h
   | clear m => cases h
+  | reject m => exact SameTree.refl st
   | getitem m key => exact getItemPath_tree st m _ _
   | get m key => exact SameTree.refl st
   | chain m ks => exact chainItems_tree st m ks
@@ -230,6 +239,7 @@ theorem exec_oneKind (st : St) (ops : List Op) (h : OneKind st) : OneKind (exec 
   | cons op ops ih => exact ih _ (step_oneKind st op h)
 
 theorem OneKind_init : OneKind {} := by intro i k hk; simp at hk
+theorem OneKind_initF (F : HId → Nat → Bool) : OneKind (init F) := by intro i k hk; simp at hk
 
 /-! ### back-links -/
 
